@@ -6,6 +6,7 @@
 import NibiruModel.StateDB
 import NibiruProofs.SDBRevert
 import NibiruProofs.SDBCommit
+import Generated.Facts
 namespace Nibiru.SDB
 
 /-! ### counterexamples (the property fails for the code as it is) -/
@@ -163,5 +164,13 @@ example :
     WF cex0 ∧ (∃ o, AList.find? s.objs 1 = some o ∧ o.suicided = false) ∧ 1 ∈ s.dirties.map (·.1) ∧
       (commit s).txStore.acct 1 = some { nonce := 2, codeHash := 7, balance := 7 } ∧ (commit s).txStore.slot 1 0 = 7 := by
   refine ⟨WF_fresh _, ?_, ?_, ?_, ?_⟩ <;> decide
+
+/-! ### T1 (regenerated from x/evm/precompile/precompile.go on every run) -/
+
+/-- every precompile call, whatever the method, enters through the same three unconditional StateDB calls: take the cache
+    context, journal the multistore snapshot (`PrecompileCalled`, which also enforces the per-tx limit), flush the dirty StateDB —
+    the sequence `NibiruModel.StateDB.precompile` models and `C04_precompile_entry_restores_multistore` speaks about -/
+theorem fact_C04_onRunStart_sequence : Generated.onRunStartStateDBCalls =
+    [("CacheCtxForPrecompile", "-"), ("SavePrecompileCalledJournalChange", "-"), ("CommitCacheCtx", "-")] := by decide
 
 end Nibiru.SDB
